@@ -88,7 +88,7 @@ type Machine struct {
 	Name     string `json:"name"`
 	Packages int    `json:"packages"`
 	Dies     int    `json:"dies"`  // per package
-	NodesPer int    `json:"nodes"` // per die
+	NodesPer int    `json:"nodes_per_die"`
 	Cores    int    `json:"cores"` // per node
 	Threads  int    `json:"threads"`
 	CPUs     []CPU  `json:"cpus"`
@@ -171,7 +171,9 @@ func Generate(name string, p Params) *Machine {
 			for n := 0; n < p.NodesPerDie; n++ {
 				for c := 0; c < p.CoresPerNode; c++ {
 					ct := coreT{pkg: pk, die: d, node: nodeID, coreInPkg: coreInPkg}
-					ct.cluster = coreInPkg / p.L2Cluster
+					// L2 domains never straddle a NUMA node: clusters are numbered per node
+					perNode := (p.CoresPerNode + p.L2Cluster - 1) / p.L2Cluster
+					ct.cluster = (d*p.NodesPerDie+n)*perNode + c/p.L2Cluster
 					if p.Hybrid && c >= (p.CoresPerNode+1)/2 {
 						ct.ecore = true
 					}
@@ -280,7 +282,7 @@ func Generate(name string, p Params) *Machine {
 		l2members[[2]int{c.pkg, c.cluster}] = append(l2members[[2]int{c.pkg, c.cluster}], ids...)
 		l3members[[2]int{c.pkg, c.die}] = append(l3members[[2]int{c.pkg, c.die}], ids...)
 	}
-	clustersPerPkg := (p.Dies*p.NodesPerDie*p.CoresPerNode + p.L2Cluster - 1) / p.L2Cluster
+	clustersPerPkg := p.Dies * p.NodesPerDie * ((p.CoresPerNode + p.L2Cluster - 1) / p.L2Cluster)
 	for i := range m.CPUs {
 		cpu := &m.CPUs[i]
 		c := cores[coreOf[cpu.ID]]
